@@ -219,6 +219,14 @@ G(name="srv_tunnel_bind", entry="h_tunnel_bind", defs=NETDEFS, enforce=["tunnel_
   what="tunnel_bind for an arbitrary reply: the id is read from the reply's own bytes/length, the ring is asked for exactly that id; no match => nothing sent to anybody; match => the same bytes and length relayed once to the remembered address on the socket of its family")
 G(name="srv_ns_a_request", entry="h_ns_a_request", defs=NETDEFS, enforce=["handle_ns_request", "handle_a_request"], props={"C10": "all", "C05": "safety"}, **NET,
   what="handle_ns_request / handle_a_request: answer built for the received query (NS: with the matched domain part of its own name), glue/address = configured address, placeholder 127.0.0.1 for www, else the address the query was sent to; no address answer without an IPv4 address; exactly the built message sent once to the asker")
+NET2 = dict(NET, shrink_set="payload64x2", rss_gb=5, cost=120)
+NET2DEFS = NETDEFS + ["VERIF_NSLOTS=2"]
+for dest in (-1, 0, 1):
+    dn = {-1: "none", 0: "0", 1: "1"}[dest]
+    G(name="srv_full_packet_to_%s" % dn, entry="h_full_packet", defs=NET2DEFS + ["H_DEST=%d" % dest], enforce=["handle_full_packet"], props={"C04": "all", "C01": "all", "C14": "all", "C03": "all", "C05": "safety"}, **NET2,
+      what="handle_full_packet on a TWO-slot table (sender slot 0, destination by the find_user_by_ip contract: %s): zlib gets exactly the reassembled bytes; a packet that does not inflate is dropped; destination looked up by the inflated packet's destination address; no session => tun gets exactly zlib's bytes/length; a session => never tun, only THAT slot changes (copied/queued as is, or one raw datagram to its address), the other slot untouched; at most one held query of the destination answered; reassembly buffer released" % dn)
+    G(name="srv_tunnel_tun_to_%s" % dn, entry="h_tunnel_tun", defs=NET2DEFS + ["H_DEST=%d" % dest], enforce=["tunnel_tun"], props={"C04": "all", "C01": "all", "C14": "all", "C05": "safety"}, **NET2,
+      what="server tunnel_tun on a TWO-slot table (owner of the destination address by the find_user_by_ip contract: %s): the session is looked up by the packet's destination address; no owner => dropped, nothing sent or changed; owner t => exactly the bytes read are compressed and handed to slot t only (new downstream packet + at most one held query of t answered, or queued behind the packet in flight, or one raw datagram to t's address), the other slot untouched" % dn)
 
 LEVELS = {}
 TRUSTED_BASE = ["CBMC 6.11.0 (goto-cc front end, goto-instrument --dfcc contract instrumentation, symex)",
